@@ -3,6 +3,7 @@
 // case: {"k":..,"shape":"tetra|octa|bipyr|box","dims":[p,q,r],"diag":0|1,"flip":[face ids],"perm":[3 ints],"sign":[3 ints],"t":[3 ints],"scale":k,
 //        "unit":u,"node_shift":n,"face_shift":n,"long_axis":-1|0|1|2}
 #include "mesh_probe.hpp"
+#include <optional>
 #include "shapes.hpp"
 #include <numeric>
 
@@ -92,6 +93,36 @@ int main(int argc, char** argv) {
             const vec3 ax = c->get_cell_longest_axis();
             const double comp[3] = {ax.dx(), ax.dy(), ax.dz()};
             axis_ok = std::abs(std::abs(comp[la]) - 1.) < 1e-6 && std::abs(ax.norm() - 1.) < 1e-9;
+        }
+        // the same on an UNEVENLY sampled copy: a few edges at one end of the long side are split (the surface is unchanged, the node
+        // mean moves away from the area centroid), so that an axis computed from sums that mix the two would tilt with the position
+        if (la >= 0 && err.empty()) {
+            cell_ptr cu = std::make_shared<cell>(*c);
+            local_mesh_refiner lmr(1e-30, 1e30, false);
+            double top = -1e300;
+            for (auto& n : cell_tester::nodes(*cu)) if (n.is_used()) { const double q[3] = {n.pos().dx(), n.pos().dy(), n.pos().dz()}; top = std::max(top, q[la]); }
+            for (int rep = 0; rep < 5; rep++) {
+                std::optional<edge> pick;
+                for (const edge& e : cu->get_edge_set()) {
+                    const vec3 &a = cell_tester::nodes(*cu)[e.n1()].pos(), &b = cell_tester::nodes(*cu)[e.n2()].pos();
+                    const double qa[3] = {a.dx(), a.dy(), a.dz()}, qb[3] = {b.dx(), b.dy(), b.dz()};
+                    if (qa[la] == top && qb[la] == top && (a - b).norm() > 0.4 * unit * C["scale"].d()) { pick = e; break; }
+                }
+                if (!pick) break;
+                edge_set dummy; edge e = *pick;
+                lmr.split_edge(e, cu, dummy);
+            }
+            cu->update_all_face_normals_and_areas();
+            cell_tester::area(*cu) = cu->compute_area(); cell_tester::volume(*cu) = cu->compute_volume();
+            // (the axis of the node cloud is allowed to differ from the box axis once the sampling is uneven; what it may not do is depend
+            // on where the cell is: the same unevenly sampled cell moved to the origin must report the same direction)
+            const vec3 ax1 = cu->get_cell_longest_axis();
+            const vec3 shift = cu->compute_centroid() * (-1.);
+            for (auto& n : cell_tester::nodes(*cu)) if (n.is_used()) cell_tester::pos(n) = n.pos() + shift;
+            cu->update_all_face_normals_and_areas();
+            cell_tester::area(*cu) = cu->compute_area(); cell_tester::volume(*cu) = cu->compute_volume();
+            const vec3 ax2 = cu->get_cell_longest_axis();
+            if (!(std::abs(ax1.dot(ax2)) > 1. - 1e-6 && std::abs(ax1.norm() - 1.) < 1e-9)) axis_ok = false;
         }
         o.key("axis_ok").b(axis_ok);
         // the same quantities after the lists got unused slots before live elements (what edge collapses leave behind), and after
